@@ -1,7 +1,255 @@
-(* C03 -- property theorems only: each is closed by [exact] of a lemma proved elsewhere. *)
-From Coq Require Import List NArith.
-From Muscle Require Import Gw.GwBase Gw.FrameModel Gw.FrameProofs.
+(* C03 -- A gateway delivers exactly the sent Message sequence for every byte segmentation.
+   Property theorems only: each is closed by [exact] of a lemma proved under Gw/.
 
-Theorem C03_header_size : f_hs = 8%N.
-Proof. exact f_hs_is_8. Qed.
-Print Assumptions C03_header_size.
+   Reading guide.  A run of a gateway pair is [sys_run queue do_output do_input sys0 evs] for an
+   ARBITRARY event list evs: EQueue m (AddOutgoingMessage), EOut maxBytes script (one DoOutput
+   call; the k-th Write it makes accepts min(requested, script[k]) bytes, 0 once the script is
+   exhausted), EIn maxBytes script (one DoInput call; the k-th Read returns min(requested,
+   script[k], bytes in flight)).  Every theorem quantifies over all evs, i.e. over all Message
+   sequences, all segmentations (zero-byte and one-byte results included), all maxBytes argument
+   sequences and all interleavings of output and input calls.
+     *_prefix_safety    what has been delivered is always a prefix of what was queued;
+     *_completeness     once the sender has nothing left to write and nothing is in flight,
+                        delivered = queued (nothing lost, duplicated, merged, split, altered);
+     *_fair_completion  any continuation made of enough "rounds" -- each round an arbitrary list
+                        of calls containing one DoOutput and one DoInput call that are allowed
+                        to move at least one byte -- reaches that state. *)
+From Coq Require Import List NArith.
+From Muscle Require Import Gen.Consts Gw.GwBase Gw.TransportProofs
+  Gw.FrameModel Gw.FrameProofs Gw.FrameDefault
+  Gw.TextModel Gw.TextProofs Gw.RawModel Gw.RawProofs Gw.SlipModel Gw.SlipProofs.
+Import ListNotations.
+Local Open Scope N_scope.
+
+(* ====================================================================== standard binary gateway,
+   MUSCLE_MESSAGE_ENCODING_DEFAULT; a Message = its flattened bytes; delivered list compared with
+   the queued list AS A LIST OF MESSAGES *)
+Theorem C03_binary_prefix_safety : forall max_in (evs : list (event bytes)),
+  Forall (ev_wf (d_wfb max_in)) evs ->
+  exists tl, ev_msgs evs = s_dlv (sys_run fs_queue d_do_output (d_do_input max_in) d_sys0 evs) ++ tl.
+Proof. exact d_prefix_safety. Qed.
+Print Assumptions C03_binary_prefix_safety.
+
+Theorem C03_binary_completeness : forall max_in (evs : list (event bytes)),
+  Forall (ev_wf (d_wfb max_in)) evs ->
+  d_rem (s_snd (sys_run fs_queue d_do_output (d_do_input max_in) d_sys0 evs)) = [] ->
+  s_pipe (sys_run fs_queue d_do_output (d_do_input max_in) d_sys0 evs) = [] ->
+  s_dlv (sys_run fs_queue d_do_output (d_do_input max_in) d_sys0 evs) = ev_msgs evs.
+Proof. exact d_completeness. Qed.
+Print Assumptions C03_binary_completeness.
+
+Theorem C03_binary_fair_completion : forall max_in (evs : list (event bytes)) (rs : list (list (event bytes))),
+  Forall (ev_wf (d_wfb max_in)) evs -> Forall round rs ->
+  (measure d_rem (fun _ => 0%nat) (sys_run fs_queue d_do_output (d_do_input max_in) d_sys0 evs) <= length rs)%nat ->
+  let st := sys_run fs_queue d_do_output (d_do_input max_in) d_sys0 (evs ++ concat rs) in
+  quiet d_rem st /\ s_dlv st = ev_msgs evs.
+Proof. exact d_fair_completion. Qed.
+Print Assumptions C03_binary_fair_completion.
+
+Theorem C03_binary_receiver_idle : forall max_in (evs : list (event bytes)),
+  Forall (ev_wf (d_wfb max_in)) evs ->
+  d_rem (s_snd (sys_run fs_queue d_do_output (d_do_input max_in) d_sys0 evs)) = [] ->
+  s_pipe (sys_run fs_queue d_do_output (d_do_input max_in) d_sys0 evs) = [] ->
+  exists cr', fr_norm unit (s_rcv (sys_run fs_queue d_do_output (d_do_input max_in) d_sys0 evs)) = idle unit cr'.
+Proof. exact d_receiver_idle. Qed.
+Print Assumptions C03_binary_receiver_idle.
+
+(* the split lemma: splitting a read changes nothing observable *)
+Theorem C03_binary_feed_split : forall max_in st a b,
+  snd (d_feed max_in st (a ++ b)) =
+  snd (d_feed max_in st a) ++ snd (d_feed max_in (fst (d_feed max_in st a)) b).
+Proof. exact d_feed_split. Qed.
+Print Assumptions C03_binary_feed_split.
+
+(* the same three theorems for ANY codec pair satisfying the premise codec_sync (this is what the
+   zlib encodings instantiate: the premise then speaks about deflate/inflate) *)
+Theorem C03_binary_codec_prefix_safety :
+  forall (CS CR : Type) (flat : CS -> bytes -> CS * bytes) (unflat : CR -> bytes -> CR * option bytes)
+         (max_in : N) (cs0 : CS) (cr0 : CR),
+  (forall c m, f_hs <= blen (snd (flat c m))) ->
+  forall (sync : CS -> CR -> Prop) (wfb : bytes -> Prop),
+  sync cs0 cr0 ->
+  (forall cs cr m, sync cs cr -> wfb m ->
+     exists payload enc cr',
+       snd (flat cs m) = le32 (blen payload) ++ le32 enc ++ payload /\
+       c_MUSCLE_MESSAGE_ENCODING_DEFAULT <= enc <= c_MUSCLE_MESSAGE_ENCODING_END_MARKER - 1 /\
+       blen payload <= max_in /\ f_hs + blen payload < two32 /\
+       unflat cr (snd (flat cs m)) = (cr', Some m) /\ sync (fst (flat cs m)) cr') ->
+  forall evs : list (event bytes),
+  Forall (ev_wf wfb) evs ->
+  exists tl, ev_msgs evs =
+             s_dlv (sys_run fs_queue (f_do_output CS flat) (f_do_input CR unflat max_in) (f_sys0 CS CR cs0 cr0) evs) ++ tl.
+Proof. exact frame_prefix_safety. Qed.
+Print Assumptions C03_binary_codec_prefix_safety.
+
+(* ====================================================================== plain text gateway;
+   Messages = lists of lines; lines free of CR, LF, NUL (empty lines allowed); terminator CRLF,
+   CR or LF; compared: the list of all lines, in order *)
+Theorem C03_text_prefix_safety : forall eol, eol_ok eol -> forall evs : list (event (list bytes)),
+  Forall (ev_wf text_wfm) evs ->
+  exists tl, concat (ev_msgs evs) =
+             concat (s_dlv (sys_run ts_queue (t_do_output eol) t_do_input text_sys0 evs)) ++ tl.
+Proof. exact text_prefix_safety. Qed.
+Print Assumptions C03_text_prefix_safety.
+
+Theorem C03_text_completeness : forall eol, eol_ok eol -> forall evs : list (event (list bytes)),
+  Forall (ev_wf text_wfm) evs ->
+  ts_rem eol (s_snd (sys_run ts_queue (t_do_output eol) t_do_input text_sys0 evs)) = [] ->
+  s_pipe (sys_run ts_queue (t_do_output eol) t_do_input text_sys0 evs) = [] ->
+  concat (s_dlv (sys_run ts_queue (t_do_output eol) t_do_input text_sys0 evs)) = concat (ev_msgs evs).
+Proof. exact text_completeness. Qed.
+Print Assumptions C03_text_completeness.
+
+Theorem C03_text_fair_completion : forall eol, eol_ok eol ->
+  forall (evs : list (event (list bytes))) (rs : list (list (event (list bytes)))),
+  Forall (ev_wf text_wfm) evs -> Forall round rs ->
+  (measure (ts_rem eol) ts_mu (sys_run ts_queue (t_do_output eol) t_do_input text_sys0 evs) <= length rs)%nat ->
+  let st := sys_run ts_queue (t_do_output eol) t_do_input text_sys0 (evs ++ concat rs) in
+  quiet (ts_rem eol) st /\ concat (s_dlv st) = concat (ev_msgs evs).
+Proof. exact text_fair_completion. Qed.
+Print Assumptions C03_text_fair_completion.
+
+(* outside the domain: with a NUL byte in the stream what is delivered depends on the segmentation *)
+Theorem C03_text_nul_refuted :
+  let big := c_MUSCLE_NO_LIMIT in
+  let '(_, o1, _) := t_do_input tr_init big [big] nul_stream in
+  let '(r2, o2a, p2) := t_do_input tr_init big [3] nul_stream in
+  let '(_, o2b, _) := t_do_input r2 big [big] p2 in
+  concat o1 = [[97; 98]] /\ concat (o2a ++ o2b) = [[97; 98; 99; 100]].
+Proof. exact text_nul_refuted. Qed.
+Print Assumptions C03_text_nul_refuted.
+
+(* ====================================================================== raw gateway, both receive
+   modes (minChunkSize = 0: immediate forward; > 0: fixed-size chunk assembly); non-empty chunks;
+   compared: the concatenation of all chunk bytes *)
+Theorem C03_raw_prefix_safety : forall minc maxc (evs : list (event (list bytes))),
+  Forall (ev_wf raw_wfm) evs ->
+  exists tl, flat_chunks (ev_msgs evs) =
+             flat_chunks (s_dlv (sys_run rs_queue raw_do_output (r_do_input minc maxc) raw_sys0 evs)) ++ tl.
+Proof. exact raw_prefix_safety. Qed.
+Print Assumptions C03_raw_prefix_safety.
+
+Theorem C03_raw_completeness : forall minc maxc (evs : list (event (list bytes))),
+  Forall (ev_wf raw_wfm) evs ->
+  rs_rem r_trunc (s_snd (sys_run rs_queue raw_do_output (r_do_input minc maxc) raw_sys0 evs)) = [] ->
+  s_pipe (sys_run rs_queue raw_do_output (r_do_input minc maxc) raw_sys0 evs) = [] ->
+  flat_chunks (s_dlv (sys_run rs_queue raw_do_output (r_do_input minc maxc) raw_sys0 evs))
+    ++ rr_pend (s_rcv (sys_run rs_queue raw_do_output (r_do_input minc maxc) raw_sys0 evs))
+  = flat_chunks (ev_msgs evs).
+Proof. exact raw_completeness. Qed.
+Print Assumptions C03_raw_completeness.
+
+Theorem C03_raw_fair_completion : forall minc maxc (evs : list (event (list bytes))) (rs : list (list (event (list bytes)))),
+  Forall (ev_wf raw_wfm) evs -> Forall round rs ->
+  (measure (rs_rem r_trunc) (fun _ => 0%nat) (sys_run rs_queue raw_do_output (r_do_input minc maxc) raw_sys0 evs) <= length rs)%nat ->
+  let st := sys_run rs_queue raw_do_output (r_do_input minc maxc) raw_sys0 (evs ++ concat rs) in
+  quiet (rs_rem r_trunc) st /\ flat_chunks (s_dlv st) ++ rr_pend (s_rcv st) = flat_chunks (ev_msgs evs).
+Proof. exact raw_fair_completion. Qed.
+Print Assumptions C03_raw_fair_completion.
+
+(* ====================================================================== SLIP gateway; non-empty
+   chunks of arbitrary bytes (END/ESC included); compared: the list of all chunks (frames), in order *)
+Theorem C03_slip_prefix_safety : forall evs : list (event (list bytes)),
+  Forall (ev_wf raw_wfm) evs ->
+  exists tl, concat (ev_msgs evs) = concat (s_dlv (sys_run rs_queue slip_do_output sl_do_input slip_sys0 evs)) ++ tl.
+Proof. exact slip_prefix_safety. Qed.
+Print Assumptions C03_slip_prefix_safety.
+
+Theorem C03_slip_completeness : forall evs : list (event (list bytes)),
+  Forall (ev_wf raw_wfm) evs ->
+  rs_rem slip_xform (s_snd (sys_run rs_queue slip_do_output sl_do_input slip_sys0 evs)) = [] ->
+  s_pipe (sys_run rs_queue slip_do_output sl_do_input slip_sys0 evs) = [] ->
+  concat (s_dlv (sys_run rs_queue slip_do_output sl_do_input slip_sys0 evs)) = concat (ev_msgs evs).
+Proof. exact slip_completeness. Qed.
+Print Assumptions C03_slip_completeness.
+
+Theorem C03_slip_fair_completion : forall (evs : list (event (list bytes))) (rs : list (list (event (list bytes)))),
+  Forall (ev_wf raw_wfm) evs -> Forall round rs ->
+  (measure (rs_rem slip_xform) (fun _ => 0%nat) (sys_run rs_queue slip_do_output sl_do_input slip_sys0 evs) <= length rs)%nat ->
+  let st := sys_run rs_queue slip_do_output sl_do_input slip_sys0 (evs ++ concat rs) in
+  quiet (rs_rem slip_xform) st /\ concat (s_dlv st) = concat (ev_msgs evs).
+Proof. exact slip_fair_completion. Qed.
+Print Assumptions C03_slip_fair_completion.
+
+(* the SLIP split lemma and the frame round trip it rests on *)
+Theorem C03_slip_feed_split : forall a st b,
+  sl_feed st (a ++ b) =
+  let '(st1, o1) := sl_feed st a in let '(st2, o2) := sl_feed st1 b in (st2, o1 ++ o2).
+Proof. exact sl_feed_app. Qed.
+Print Assumptions C03_slip_feed_split.
+
+Theorem C03_slip_frames_roundtrip : forall cs, Forall nonempty cs ->
+  sl_feed (mkSR [] false) (concat (map sl_encode cs)) = (mkSR [] false, cs).
+Proof. exact sl_feed_frames. Qed.
+Print Assumptions C03_slip_frames_roundtrip.
+
+(* ====================================================================== non-vacuity: concrete runs
+   that satisfy the premises above (segmented transfers reaching the quiet state) *)
+Definition ex_big : N := c_MUSCLE_NO_LIMIT.
+Definition ex_m1 : bytes := le32 c_CURRENT_PROTOCOL_VERSION ++ le32 7 ++ le32 0.
+Definition ex_m2 : bytes := le32 c_CURRENT_PROTOCOL_VERSION ++ le32 9 ++ le32 0.
+Definition ex_bin_evs : list (event bytes) :=
+  [EQueue ex_m1; EOut 5 [3; 1; 1]; EIn ex_big [2]; EQueue ex_m2; EOut ex_big [ex_big; ex_big; ex_big];
+   EIn 7 [1; 1; 9]; EIn ex_big [0]; EIn ex_big [ex_big; ex_big; ex_big; ex_big; ex_big]].
+
+Example C03_binary_nonvacuous :
+  Forall (ev_wf (d_wfb ex_big)) ex_bin_evs /\
+  d_rem (s_snd (sys_run fs_queue d_do_output (d_do_input ex_big) d_sys0 ex_bin_evs)) = [] /\
+  s_pipe (sys_run fs_queue d_do_output (d_do_input ex_big) d_sys0 ex_bin_evs) = [] /\
+  s_dlv (sys_run fs_queue d_do_output (d_do_input ex_big) d_sys0 ex_bin_evs) = [ex_m1; ex_m2].
+Proof.
+  split.
+  - repeat constructor; vm_compute; try discriminate; reflexivity.
+  - vm_compute. auto.
+Qed.
+
+Definition ex_lines : list (event (list bytes)) :=
+  [EQueue [[97; 98]; []; [99]]; EOut 3 [2; 1]; EIn ex_big [1]; EQueue []; EQueue [[100]];
+   EOut ex_big [ex_big; ex_big; ex_big; ex_big; ex_big; ex_big; ex_big; ex_big];
+   EIn ex_big [2]; EIn 1 [1]; EIn ex_big [ex_big]].
+
+Example C03_text_nonvacuous :
+  eol_ok [CR; LF] /\ Forall (ev_wf text_wfm) ex_lines /\
+  ts_rem [CR; LF] (s_snd (sys_run ts_queue (t_do_output [CR; LF]) t_do_input text_sys0 ex_lines)) = [] /\
+  s_pipe (sys_run ts_queue (t_do_output [CR; LF]) t_do_input text_sys0 ex_lines) = [] /\
+  concat (s_dlv (sys_run ts_queue (t_do_output [CR; LF]) t_do_input text_sys0 ex_lines)) = [[97; 98]; []; [99]; [100]].
+Proof.
+  split; [left; reflexivity|]. split.
+  - repeat constructor; discriminate.
+  - vm_compute. auto.
+Qed.
+
+Definition ex_chunks : list (event (list bytes)) :=
+  [EQueue [[192; 219; 65]; [219]]; EOut 4 [3; 1]; EIn ex_big [2]; EQueue [[66]];
+   EOut ex_big [ex_big; ex_big; ex_big; ex_big]; EIn 3 [3]; EIn ex_big [ex_big]; EIn ex_big [ex_big]].
+
+Example C03_slip_nonvacuous :
+  Forall (ev_wf raw_wfm) ex_chunks /\
+  rs_rem slip_xform (s_snd (sys_run rs_queue slip_do_output sl_do_input slip_sys0 ex_chunks)) = [] /\
+  s_pipe (sys_run rs_queue slip_do_output sl_do_input slip_sys0 ex_chunks) = [] /\
+  concat (s_dlv (sys_run rs_queue slip_do_output sl_do_input slip_sys0 ex_chunks)) = [[192; 219; 65]; [219]; [66]].
+Proof.
+  split.
+  - repeat constructor; discriminate.
+  - vm_compute. auto.
+Qed.
+
+Example C03_raw_nonvacuous :
+  Forall (ev_wf raw_wfm) ex_chunks /\
+  rs_rem r_trunc (s_snd (sys_run rs_queue raw_do_output (r_do_input 2 ex_big) raw_sys0 ex_chunks)) = [] /\
+  s_pipe (sys_run rs_queue raw_do_output (r_do_input 2 ex_big) raw_sys0 ex_chunks) = [] /\
+  flat_chunks (s_dlv (sys_run rs_queue raw_do_output (r_do_input 2 ex_big) raw_sys0 ex_chunks)) = [192; 219; 65; 219] /\
+  rr_pend (s_rcv (sys_run rs_queue raw_do_output (r_do_input 2 ex_big) raw_sys0 ex_chunks)) = [66].
+Proof.
+  split.
+  - repeat constructor; discriminate.
+  - vm_compute. auto.
+Qed.
+
+(* a round in the sense of the fair-completion theorems *)
+Example C03_round_nonvacuous : @round bytes [EIn 0 []; EOut 1 [1]; EOut 0 [5]; EIn ex_big [1]].
+Proof.
+  split; [repeat constructor|]. split.
+  - apply Exists_cons_tl. apply Exists_cons_hd. cbn. split; discriminate.
+  - do 3 apply Exists_cons_tl. apply Exists_cons_hd. cbn. split; discriminate.
+Qed.
